@@ -336,6 +336,8 @@ func (e *envT) oracle(w *worker, pre *wstate, o opDef, fault, where string, so *
 				sel = isHead
 			case "tags":
 				sel = isTag
+			case "refs":
+				sel = lr == resolveRef(pre, o.Refs[0]) || lr == resolveRef(pre, o.Refs[1])
 			}
 			if !sel {
 				continue
@@ -357,8 +359,12 @@ func (e *envT) oracle(w *worker, pre *wstate, o opDef, fault, where string, so *
 		// git lfs push: documented selection (git-lfs-push(1)): <ref> minus what the local clone knows the remote to have;
 		// --all: everything reachable from all local branches and tags; --object-id: the named objects.
 		switch o.PushKind {
-		case "lfs-cur":
-			cs := w.revList(loc, "", []string{pre.LRefs["refs/heads/"+pre.Head]}, trackingShas(pre, rname))
+		case "lfs-cur", "lfs-refs":
+			inc := []string{pre.LRefs["refs/heads/"+pre.Head]}
+			if o.PushKind == "lfs-refs" {
+				inc = []string{pre.LRefs[resolveRef(pre, o.Refs[0])], pre.LRefs[resolveRef(pre, o.Refs[1])]}
+			}
+			cs := w.revList(loc, "", inc, trackingShas(pre, rname))
 			for _, n := range e.neededBy(w, loc, cs) {
 				known := false // "filters out objects that are already referenced by the local clone of the remote"
 				for _, t := range trackingShas(pre, rname) {
@@ -1102,7 +1108,7 @@ func (e *envT) scenarios() []*scenario {
 		fmt.Printf("TOOL-ERROR property=C03 %s\n", msg)
 		os.Exit(2)
 	}
-	quickFaults := []string{"put-500", "put-422", "verify-fail", "batch-objerr"}
+	quickFaults := []string{"put-500", "put-422", "verify-fail", "batch-objerr", "expire-first", "expire-first-neg", "expire-first-at", "expire-always"}
 	faults := quickFaults
 	if e.thorough {
 		faults = faultNames
@@ -1186,7 +1192,7 @@ func TestVerifC03(t *testing.T) {
 	c.Rule = "explicit-state BFS over operation sequences on real repositories and the real git-lfs binary: from each initial world every operation of the scenario's alphabet " +
 		"(plumbing-built commits: add/modify/delete/rename/duplicate-content/move out of LFS, branch, checkout, 2-parent and octopus merge, lightweight and annotated tag, orphan branch; " +
 		"delete / truncate a local LFS object with three work-tree variants; toggle lfs.allowincompletepush; `git push` {<cur>, -f, --all, --tags, :<cur>, batchsize 1/2} through the installed pre-push hook; " +
-		"`git lfs push` {<cur>, --all, --object-id}; git fetch [--prune]; another client deleting / resetting / advancing a remote branch; a second remote with its own LFS server; server garbage collection) " +
+		"`git lfs push` {<cur>, --all, --object-id}; two refs named in one invocation (`git lfs push <remote> A B` for all ordered pairs, `git push <remote> A B` for all unordered pairs of the branch/tag names); git fetch [--prune]; another client deleting / resetting / advancing a remote branch; a second remote with its own LFS server; server garbage collection) " +
 		"is applied to every new state up to the depth bound; at the last position of a sequence only push operations are run (only they are evaluated). " +
 		"States are deduplicated by a canonical key: HEAD + every ref of the local repository (incl. remote-tracking) and of each bare remote with its object id " +
 		"(commit ids are content signatures here: fixed identities/dates/messages make them a function of graph shape and blob contents) + local LFS store + server object sets + work-tree files + lfs.allowincompletepush. " +
@@ -1196,7 +1202,7 @@ func TestVerifC03(t *testing.T) {
 		"P1 (git push): for every commit in `rev-list <remote refs after> --not <remote refs before>` (computed in the bare remote), every blob that is a spec pointer (strict decoder written from docs/spec.md, incl. extension lines; read with ls-tree/cat-file) names an object stored on that remote's LFS server whose bytes hash to the oid. Demanded whenever refs of the remote changed (a ref that was updated is a push that succeeded for that ref), whatever the exit code of git.",
 		"P1 exemption: with lfs.allowincompletepush=true, an object that before the push was neither validly in the local store nor on the server is not demanded.",
 		"P2 (git push): model of what git hands to the hook = selected local refs that are not up to date, not a tag that exists remotely with another value and (unless -f) fast-forward. If an object referenced by `rev-list <those> --not <remote refs before>` is not validly in .git/lfs/objects, no top-level work-tree file has its bytes (git-lfs re-cleans the work-tree file: that counts as locally present) and the server lacks it, and lfs.allowincompletepush is not true, then git must exit non-zero and no ref of the remote may change.",
-		"git lfs push does not move refs, so 'commits that became reachable through that push' is read through its documented selection (git-lfs-push(1)): `<remote> <ref>`: objects of commits reachable from <ref> and not from the local clone's remote-tracking refs of that remote; `--all`: objects of every commit reachable from any local branch or tag; `--object-id`: the named objects. Exit 0 => all of them on the server with the right bytes (same exemption); one of them nowhere => exit != 0.",
+		"git lfs push does not move refs, so 'commits that became reachable through that push' is read through its documented selection (git-lfs-push(1)): `<remote> <ref>...`: objects of commits reachable from the named ref(s) and not from the local clone's remote-tracking refs of that remote; `--all`: objects of every commit reachable from any local branch or tag; `--object-id`: the named objects. Exit 0 => all of them on the server with the right bytes (same exemption); one of them nowhere => exit != 0.",
 		"The fake LFS servers never delete objects on their own (scenario 'servergc' adds an explicit garbage-collection operation that removes objects no ref of the remote refers to) and store PUT bodies without hashing them, so 'the right bytes' is checked by the oracle, not enforced by the server. A truncated (wrong-size) local object counts as absent locally.",
 		"Another client is modelled as a correct client acting directly on the bare remote: it only moves branches to commits whose objects are on the server, or uploads its object before pushing.",
 		"Commits are built with git plumbing (hash-object, mktree, commit-tree, update-ref) and the LFS objects are placed into .git/lfs/objects as the clean filter would; at start the harness checks that its pointer texts equal the output of the real `git lfs clean`, that `git lfs pointer --check` accepts the 1023-byte pointer and that `git lfs update` installed the pre-push hook. The work tree contains only files written by the rm-object variants.",
